@@ -153,6 +153,55 @@ def is_valid_mec_graph(G, on_error: str = "raise") -> bool:
     return True
 
 
+class _BulkAddView:
+    """The graph as it will look once the already validated members of a bulk add are inserted.
+
+    ``add_edges_from`` of the PAG/CPDAG classes validates every member with the single-edge
+    guards before anything is inserted. Validating against the unchanged graph alone misses
+    members that contradict one another (e.g. ``[(1, 2), (2, 1)]`` as directed edges), so the
+    guards are run on this view, which answers ``has_edge`` for the graph plus the members
+    seen so far and forwards everything else to the graph.
+    """
+
+    def __init__(self, graph, edge_type):
+        self._graph = graph
+        self._edge_type = edge_type
+        self._pending = set()
+
+    def __getattr__(self, name):
+        return getattr(self._graph, name)
+
+    def add(self, u, v):
+        self._pending.add((u, v))
+
+    def has_edge(self, u, v, edge_type="any"):
+        if self._graph.has_edge(u, v, edge_type):
+            return True
+        layers = self._graph.edge_types if self._edge_type == "all" else [self._edge_type]
+        for layer in layers:
+            if edge_type not in ("any", layer) or layer not in self._graph.edge_types:
+                continue
+            if (u, v) in self._pending:
+                return True
+            if (v, u) in self._pending and not self._graph.get_graphs(layer).is_directed():
+                return True
+        return False
+
+
+def _check_adding_edges(graph, ebunch_to_add, edge_type, check_func):
+    """Validate a bulk add member by member, each against the graph and the members before it.
+
+    Nothing is inserted; returns the members as a list (``ebunch_to_add`` may be an iterator).
+    """
+    ebunch_to_add = list(ebunch_to_add)
+    view = _BulkAddView(graph, edge_type)
+    for e in ebunch_to_add:
+        u_of_edge, v_of_edge = e[0], e[1]
+        check_func(view, u_of_edge=u_of_edge, v_of_edge=v_of_edge, edge_type=edge_type)
+        view.add(u_of_edge, v_of_edge)
+    return ebunch_to_add
+
+
 def _check_adding_cpdag_edge(graph: CPDAG, u_of_edge: Node, v_of_edge: Node, edge_type: EdgeType):
     """Check compatibility among internal graphs when adding an edge of a certain type.
 
